@@ -30,7 +30,7 @@ from feems.types_for_feems import TypeComponent, TypePower, Power_kW, SwbId, Emi
 CURVE_THEOREMS = {
     "C06": ["efficiency_curve_within", "efficiency_curve_through_points", "inverse_exact_at_samples", "inverse_monotone",
             "interp_inverse_modelled", "table_strict", "knotOut_rising"],
-    "C07": ["curve_through_points", "curve_single", "curve_order_free", "fuel_within_points", "curve_between_points", "curve_monotone", "curve_two_points_linear"],
+    "C07": ["curve_through_points", "curve_single", "curve_order_free", "fuel_within_points", "curve_rejects_repeated_abscissa", "curve_between_points", "curve_monotone", "curve_two_points_linear"],
     "C09": ["emission_curve_through_points", "emission_curve_single", "emission_curve_order_free", "emission_curve_nonneg"],
 }
 PROOF_MODULES = ["FeemsProofs.CurveProps"]
@@ -71,6 +71,12 @@ def gen_points(rng, family):
         ys[k + 1] = ys[k]
     digits = 4 if family == "efficiency" else 2
     pts = [[float(np.round(x, 4)), float(np.round(y, digits))] for x, y in zip(xs, ys)]
+    if n >= 2 and rng.random() < 0.06:
+        # the malformed stream: one abscissa given twice (with another value) - the interpolant is refused by the code (scipy: "x must
+        # be strictly increasing") and by the model (`acceptedB`), never evaluated
+        k = int(rng.integers(0, n - 1))
+        pts[k + 1][0] = pts[k][0]
+        shape = "abscissa-twice"
     order = [int(i) for i in rng.permutation(n)]
     return {"family": family, "shape": shape, "points": [pts[i] for i in order]}
 
@@ -117,6 +123,24 @@ def real_curve_series(case, ts):
 
 def run_curve_case(ctx, case, rng, model=True):
     where = {"case": dict(case, kind="curve")}
+    if case["shape"] == "abscissa-twice":
+        ctx.count("curve_family", case["family"])
+        ctx.count("curve_shape", "abscissa-twice")
+        try:
+            real_curve(case, [0.5])
+            refused = False
+        except Exception:
+            refused = True
+        if not refused:
+            ctx.fail("predicate", "curve-with-an-abscissa-twice-accepted", f"{case['family']}: points {case['points']} were interpolated", where)
+        if model and ctx.model_available:
+            try:
+                ctx.model.call("pchip.curve", points=[[enc(p[0]), enc(p[1])] for p in case["points"]], at=[enc(0.5)])
+                ctx.fail("correspondence", "curve-acceptance", "the model accepts a point list with an abscissa given twice", where)
+            except core.ModelReject:
+                pass
+        ctx.case_done(signature=("curve", case["family"], len(case["points"]), "abscissa-twice"))
+        return
     pts = sorted(case["points"])
     xs, ys = [p[0] for p in pts], [p[1] for p in pts]
     fam = case["family"]
